@@ -151,18 +151,28 @@ structure Two where
   msgs1 : List CMsg := []
   msgs2 : List CMsg := []
 
-/-- a read event of the first (`false`) or the second (`true`) connection; a closed connection reads no more -/
-def Two.step (slot : Bytes → Nat) (limit : Nat) (t : Two) (ev : Bool × Bytes) : Two :=
+/-- an event of the first (`false`) or the second (`true`) connection: a read event with a chunk, or (`none`) the
+    client goes away - `releaseTCP` hands its inbound ring, leftover and all, back to the pool. A closed
+    connection reads no more -/
+def Two.step (slot : Bytes → Nat) (limit : Nat) (t : Two) (ev : Bool × Option Bytes) : Two :=
   if ev.1 then
     if t.closed2 then t
-    else
-      let r := ConnIn.feed goTables slot limit t.pool t.c2 ev.2
-      { t with pool := r.2.1, c2 := r.2.2.1, closed2 := r.2.2.2, msgs2 := t.msgs2 ++ r.1 }
+    else match ev.2 with
+      | some chunk =>
+        let r := ConnIn.feed goTables slot limit t.pool t.c2 chunk
+        { t with pool := r.2.1, c2 := r.2.2.1, closed2 := r.2.2.2, msgs2 := t.msgs2 ++ r.1 }
+      | none =>
+        let k := t.c2.close t.pool
+        { t with pool := k.1, c2 := k.2, closed2 := true }
   else
     if t.closed1 then t
-    else
-      let r := ConnIn.feed goTables slot limit t.pool t.c1 ev.2
-      { t with pool := r.2.1, c1 := r.2.2.1, closed1 := r.2.2.2, msgs1 := t.msgs1 ++ r.1 }
+    else match ev.2 with
+      | some chunk =>
+        let r := ConnIn.feed goTables slot limit t.pool t.c1 chunk
+        { t with pool := r.2.1, c1 := r.2.2.1, closed1 := r.2.2.2, msgs1 := t.msgs1 ++ r.1 }
+      | none =>
+        let k := t.c1.close t.pool
+        { t with pool := k.1, c1 := k.2, closed1 := true }
 
 /-- the same history over two independent "unconsumed bytes" loops -/
 structure AbsTwo where
@@ -173,17 +183,21 @@ structure AbsTwo where
   msgs1 : List CMsg := []
   msgs2 : List CMsg := []
 
-def AbsTwo.step (slot : Bytes → Nat) (limit : Nat) (a : AbsTwo) (ev : Bool × Bytes) : AbsTwo :=
+def AbsTwo.step (slot : Bytes → Nat) (limit : Nat) (a : AbsTwo) (ev : Bool × Option Bytes) : AbsTwo :=
   if ev.1 then
     if a.closed2 then a
-    else
-      let r := feed slot limit a.v2 ev.2
-      { a with v2 := r.2.1, closed2 := r.2.2, msgs2 := a.msgs2 ++ r.1 }
+    else match ev.2 with
+      | some chunk =>
+        let r := feed slot limit a.v2 chunk
+        { a with v2 := r.2.1, closed2 := r.2.2, msgs2 := a.msgs2 ++ r.1 }
+      | none => { a with closed2 := true }
   else
     if a.closed1 then a
-    else
-      let r := feed slot limit a.v1 ev.2
-      { a with v1 := r.2.1, closed1 := r.2.2, msgs1 := a.msgs1 ++ r.1 }
+    else match ev.2 with
+      | some chunk =>
+        let r := feed slot limit a.v1 chunk
+        { a with v1 := r.2.1, closed1 := r.2.2, msgs1 := a.msgs1 ++ r.1 }
+      | none => { a with closed1 := true }
 
 /-- what relates the two: same requests, same closed flags, and - for a connection still open - its view is the
     abstract leftover, held entirely in its ring; the pool and both rings are well-formed -/
@@ -198,9 +212,9 @@ structure TwoRel (t : Two) (a : AbsTwo) : Prop where
   o1 : a.closed1 = false → t.c1.view = a.v1 ∧ t.c1.buf = []
   o2 : a.closed2 = false → t.c2.view = a.v2 ∧ t.c2.buf = []
 
-theorem two_step (slot : Bytes → Nat) (limit : Nat) (t : Two) (a : AbsTwo) (h : TwoRel t a) (ev : Bool × Bytes) :
-    TwoRel (t.step slot limit ev) (a.step slot limit ev) := by
-  obtain ⟨who, chunk⟩ := ev
+theorem two_step (slot : Bytes → Nat) (limit : Nat) (t : Two) (a : AbsTwo) (h : TwoRel t a)
+    (ev : Bool × Option Bytes) : TwoRel (t.step slot limit ev) (a.step slot limit ev) := by
+  obtain ⟨who, ev⟩ := ev
   cases who with
   | true =>
     simp only [Two.step, AbsTwo.step, if_true]
@@ -208,25 +222,36 @@ theorem two_step (slot : Bytes → Nat) (limit : Nat) (t : Two) (a : AbsTwo) (h 
     | true => simp only [h.f2, hc, if_true]; exact h
     | false =>
       simp only [h.f2, hc, Bool.false_eq_true, if_false]
-      obtain ⟨v, b⟩ := h.o2 hc
-      obtain ⟨f1, f2, f3, f4, f5⟩ := C08_conn_feed slot limit t.pool t.c2 chunk h.pool h.e2 b
-      rw [v] at f1 f2 f5
-      exact ⟨f3, h.e1, f4, h.m1, by simp only; rw [h.m2, f1], h.f1, f2, h.o1, f5⟩
+      cases ev with
+      | some chunk =>
+        obtain ⟨v, b⟩ := h.o2 hc
+        obtain ⟨f1, f2, f3, f4, f5⟩ := C08_conn_feed slot limit t.pool t.c2 chunk h.pool h.e2 b
+        rw [v] at f1 f2 f5
+        exact ⟨f3, h.e1, f4, h.m1, by simp only; rw [h.m2, f1], h.f1, f2, h.o1, f5⟩
+      | none =>
+        obtain ⟨r1, r2, _⟩ := ering_release_spec t.pool t.c2.inb h.pool h.e2
+        exact ⟨r1, h.e1, r2, h.m1, h.m2, h.f1, rfl, h.o1, (fun hf => by cases hf)⟩
   | false =>
     simp only [Two.step, AbsTwo.step, Bool.false_eq_true, if_false]
     cases hc : a.closed1 with
     | true => simp only [h.f1, hc, if_true]; exact h
     | false =>
       simp only [h.f1, hc, Bool.false_eq_true, if_false]
-      obtain ⟨v, b⟩ := h.o1 hc
-      obtain ⟨f1, f2, f3, f4, f5⟩ := C08_conn_feed slot limit t.pool t.c1 chunk h.pool h.e1 b
-      rw [v] at f1 f2 f5
-      exact ⟨f3, f4, h.e2, by simp only; rw [h.m1, f1], h.m2, f2, h.f2, f5, h.o2⟩
+      cases ev with
+      | some chunk =>
+        obtain ⟨v, b⟩ := h.o1 hc
+        obtain ⟨f1, f2, f3, f4, f5⟩ := C08_conn_feed slot limit t.pool t.c1 chunk h.pool h.e1 b
+        rw [v] at f1 f2 f5
+        exact ⟨f3, f4, h.e2, by simp only; rw [h.m1, f1], h.m2, f2, h.f2, f5, h.o2⟩
+      | none =>
+        obtain ⟨r1, r2, _⟩ := ering_release_spec t.pool t.c1.inb h.pool h.e1
+        exact ⟨r1, r2, h.e2, h.m1, h.m2, rfl, h.f2, (fun hf => by cases hf), h.o2⟩
 
-/-- **two connections sharing the ring pool**: however their read events interleave, each connection hands the
-    handler exactly what it would alone - rings travel between them through the pool (a ring emptied by one is
-    taken by the other) without carrying a byte across -/
-theorem C08_conn_interleaved (slot : Bytes → Nat) (limit : Nat) (evs : List (Bool × Bytes)) :
+/-- **two connections sharing the ring pool**: however their read events interleave - and whenever one of them
+    goes away, even in the middle of a request, its ring going back to the pool with the leftover in it - each
+    connection hands the handler exactly what it would alone: rings travel between them through the pool without
+    carrying a byte across -/
+theorem C08_conn_interleaved (slot : Bytes → Nat) (limit : Nat) (evs : List (Bool × Option Bytes)) :
     TwoRel (evs.foldl (Two.step slot limit) {}) (evs.foldl (AbsTwo.step slot limit) {}) := by
   have h0 : TwoRel {} {} :=
     ⟨pinv_empty, fun _ h => by simp at h, fun _ h => by simp at h, rfl, rfl, rfl, rfl,
@@ -236,6 +261,15 @@ theorem C08_conn_interleaved (slot : Bytes → Nat) (limit : Nat) (evs : List (B
   induction evs generalizing t a with
   | nil => exact h0
   | cons ev rest ih => exact ih _ _ (two_step slot limit t a h0 ev)
+
+/- non-vacuity: the first client sends half a request and goes away; the second one's request, cut in two,
+   travels through the ring the first one gave back - kernel-evaluated -/
+example :
+    let ping : Bytes := (⟨[112, 105, 110, 103], []⟩ : Req).enc
+    let t := [(false, some (ping.take 5)), (false, none), (true, some (ping.take 6)), (true, some (ping.drop 6))].foldl
+      (Two.step goSlot 1000) {}
+    t.msgs1 = [] ∧ t.msgs2.map (·.type) = [goTables.cPing] ∧ t.closed2 = false ∧ t.c2.view = [] := by
+  decide +kernel
 
 /- non-vacuity: "GET a" then "PING", cut inside the first request and again inside the second: the leftover
    travels through the ring twice; kernel-evaluated -/
